@@ -27,24 +27,34 @@ if shutil.which("clang") is None:
 t0 = time.time()
 c = os.path.join(repo, "c")
 san = ["-O1", "-g", "-fsanitize=address,undefined", "-fno-sanitize-recover=undefined", "-fno-omit-frame-pointer", "-DBLAKE3_TESTING", "-I", c]
-objs = []
-units = [(os.path.join(here, "csan", "driver.c"), []), (c + "/blake3.c", []), (c + "/blake3_dispatch.c", []), (c + "/blake3_portable.c", []),
-         (c + "/blake3_sse2.c", ["-msse2"]), (c + "/blake3_sse41.c", ["-msse4.1"]), (c + "/blake3_avx2.c", ["-mavx2"]), (c + "/blake3_avx512.c", ["-mavx512f", "-mavx512vl"])]
-procs = []
-for src, fl in units:
-    o = os.path.join(work, os.path.basename(src) + ".o"); objs.append(o)
-    procs.append(subprocess.Popen(["clang"] + san + fl + ["-c", src, "-o", o], stderr=subprocess.PIPE, text=True))
-for p in procs:
-    _, err = p.communicate()
+KERNELS = [("sse2", "BLAKE3_NO_SSE2", ["-msse2"]), ("sse41", "BLAKE3_NO_SSE41", ["-msse4.1"]), ("avx2", "BLAKE3_NO_AVX2", ["-mavx2"]), ("avx512", "BLAKE3_NO_AVX512", ["-mavx512f", "-mavx512vl"])]
+# build variants: the library as a distributor may configure it (the BLAKE3_NO_* switches drop kernels; the
+# on-stack arrays and the dispatcher must still agree with each other)
+VARIANTS = {"full": [], "no_avx512": ["avx512"], "no_avx2": ["avx512", "avx2"], "no_sse41": ["avx512", "avx2", "sse41"], "portable": ["avx512", "avx2", "sse41", "sse2"]}
+def build(variant):
+    dropped = VARIANTS[variant]
+    defs = ["-D" + d for (k, d, _) in KERNELS if k in dropped]
+    units = [(os.path.join(here, "csan", "driver.c"), []), (c + "/blake3.c", []), (c + "/blake3_dispatch.c", []), (c + "/blake3_portable.c", [])]
+    units += [(c + f"/blake3_{k}.c", fl) for (k, _, fl) in KERNELS if k not in dropped]
+    objs = []; procs = []
+    os.makedirs(os.path.join(work, variant), exist_ok=True)
+    for src, fl in units:
+        o = os.path.join(work, variant, os.path.basename(src) + ".o"); objs.append(o)
+        procs.append(subprocess.Popen(["clang"] + san + defs + fl + ["-c", src, "-o", o], stderr=subprocess.PIPE, text=True))
+    for p in procs:
+        _, err = p.communicate()
+        if p.returncode != 0:
+            sys.stderr.write(err[-2000:]); print(f"HARNESS ERROR: sanitizer build failed (variant {variant})"); done(2)
+    drv = os.path.join(work, variant, "driver")
+    p = subprocess.run(["clang", "-fsanitize=address,undefined"] + objs + ["-o", drv], capture_output=True, text=True)
     if p.returncode != 0:
-        sys.stderr.write(err[-2000:]); print("HARNESS ERROR: sanitizer build failed"); done(2)
-drv = os.path.join(work, "driver")
-p = subprocess.run(["clang", "-fsanitize=address,undefined"] + objs + ["-o", drv], capture_output=True, text=True)
-if p.returncode != 0:
-    sys.stderr.write(p.stderr[-2000:]); print("HARNESS ERROR: sanitizer link failed"); done(2)
+        sys.stderr.write(p.stderr[-2000:]); print(f"HARNESS ERROR: sanitizer link failed (variant {variant})"); done(2)
+    return drv
 if "--only" in sys.argv:
     # replay of one plan
     idx = sys.argv[sys.argv.index("--only") + 1]
+    variant = sys.argv[sys.argv.index("--variant") + 1] if "--variant" in sys.argv else "full"
+    drv = build(variant)
     p = subprocess.run([b3sim, "export-c-one", "--seed", str(vseed), "--index", idx, "--out", work + "/one.txt", "--tier", tier], capture_output=True, text=True)
     if p.returncode != 0:
         print("HARNESS ERROR: export-c-one failed"); done(2)
@@ -60,27 +70,33 @@ p = subprocess.run([b3sim, "export-c", "--seed", str(vseed), "--count", str(coun
 if p.returncode != 0:
     sys.stderr.write(p.stdout + p.stderr); print("HARNESS ERROR: export-c failed"); done(2)
 env = dict(os.environ, ASAN_OPTIONS="detect_leaks=0:abort_on_error=0:exitcode=99", UBSAN_OPTIONS="print_stacktrace=1:halt_on_error=1:exitcode=98")
-runs = [subprocess.Popen([drv, f"{work}/scripts/shard_{k}.txt"], stdout=subprocess.PIPE, stderr=subprocess.PIPE, text=True, env=env) for k in range(shards)]
-plans = 0; ops = 0; viol = None
+# which build replays which shard of scripts
+if tier == "thorough":
+    assign = ["full"] * 8 + ["no_avx512"] * 3 + ["no_avx2"] * 2 + ["no_sse41", "portable", "portable"]
+else:
+    assign = ["full"] * 10 + ["no_avx512"] * 4 + ["no_avx2", "portable"]
+drivers = {v: build(v) for v in sorted(set(assign))}
+runs = [subprocess.Popen([drivers[assign[k]], f"{work}/scripts/shard_{k}.txt"], stdout=subprocess.PIPE, stderr=subprocess.PIPE, text=True, env=env) for k in range(shards)]
+plans = 0; ops = 0; viol = None; per_variant = {}
 for k, r in enumerate(runs):
     out, err = r.communicate()
     m = re.search(r"ok plans=(\d+) ops=(\d+)", out)
     if r.returncode == 0 and m:
-        plans += int(m.group(1)); ops += int(m.group(2)); continue
+        plans += int(m.group(1)); ops += int(m.group(2)); per_variant[assign[k]] = per_variant.get(assign[k], 0) + int(m.group(1)); continue
     cur = re.findall(r"(?:CUR|WRONG-OUTPUT) plan=(\d+)", out)
     idx = int(cur[-1]) if cur else -1
     what = "output differs from SpecModel" if r.returncode == 3 else next((l.strip() for l in err.splitlines() if "ERROR: AddressSanitizer" in l or "runtime error" in l), f"driver exit {r.returncode}")
     if viol is None:
-        viol = (idx, what, err[-1500:])
+        viol = (idx, f"[build variant {assign[k]}] " + what, err[-1500:], assign[k])
 wall = time.time() - t0
 exitc = 0
 os.makedirs(os.path.join(verif, "replays"), exist_ok=True)
 if viol:
-    idx, what, tail = viol
+    idx, what, tail, variant = viol
     rp = os.path.join(verif, "replays", f"C07-asan-{idx}.json")
     json.dump({"property": "C07", "engine": "asan", "plan_family": "c06 (seed^0xA5A4)", "verif_seed": vseed, "plan_index": idx, "tier": tier,
                "violation": {"property": "C07", "class": "sanitizer", "detail": what},
-               "replay_cmd": f"python3 {here}/tools/asan_tier.py {vseed} {tier} {b3sim} --only {idx}", "report_tail": tail}, open(rp, "w"), indent=1)
+               "variant": variant, "replay_cmd": f"python3 {here}/tools/asan_tier.py {vseed} {tier} {b3sim} --only {idx} --variant {variant}", "report_tail": tail}, open(rp, "w"), indent=1)
     print(f"  asan: plan {idx}: {what}")
     print(f"VIOLATION property=C07 replay={rp}")
     exitc = 1
@@ -88,8 +104,8 @@ os.makedirs(os.path.join(verif, "evidence", ".parts"), exist_ok=True)
 json.dump({"part": "asan", "flavour": "clang-asan-ubsan (C intrinsics kernels, portable, blake3.c, dispatcher)", "exit": exitc, "shapes": [], "sigs": [], "run_digests": {},
            "evidence": {"property_id": "C07", "tier": tier, "seed": vseed, "level": "exploration", "wall_s": wall, "violations": 1 if viol else 0,
                         "assumptions": ["clang 14 AddressSanitizer / UBSan; assembly kernels are not instrumented (they are covered by the guard-page families)"],
-                        "coverage": {"evaluations": plans, "distinct_nontrivial": plans, "rule": "C API histories of the C06 plan family replayed under ASan+UBSan with exact-size heap buffers; distinct = plans replayed",
-                                     "samples": [{"plans": plans, "driver_ops": ops, "shards": shards}]}}},
+                        "coverage": {"evaluations": plans, "distinct_nontrivial": plans, "rule": "C API histories of the C06 plan family replayed under ASan+UBSan with exact-size heap buffers, by builds of the C library with none / some / all of the BLAKE3_NO_* switches; distinct = plans replayed",
+                                     "samples": [{"plans": plans, "driver_ops": ops, "shards": shards, "plans_per_build_variant": per_variant}]}}},
           open(os.path.join(verif, "evidence", ".parts", "C07.asan.json"), "w"), indent=1)
 print(f"asan tier C07: {plans} plans, {ops} driver ops, {wall:.0f}s, exit {exitc}")
 done(exitc)
